@@ -61,6 +61,9 @@ type Sched struct {
 	Early    bool // the enclosing call returned while tasks were still alive
 	Steps    int
 	MaxSteps int
+	// OnState, when set, receives a hash of the global protocol state (shared counter + point and observed
+	// value of every parked task) each time all live tasks are parked, i.e. before every scheduling decision
+	OnState func(h uint64)
 }
 
 var errInjected = errors.New("injected task failure")
@@ -192,6 +195,9 @@ func (s *Sched) Run(n int, op func()) (deadlock, livelock bool, err error) {
 			if s.Steps > s.MaxSteps {
 				return false, true, nil
 			}
+			if s.OnState != nil {
+				s.OnState(stateHash(parked))
+			}
 			// advance tasks parked at non-branching points, in id order
 			var nb []int32
 			for id, e := range parked {
@@ -228,6 +234,34 @@ func (s *Sched) Run(n int, op func()) (deadlock, livelock bool, err error) {
 			}
 		}
 	}
+}
+
+// stateHash hashes the global protocol state: all live tasks are parked, so the counter is stable.
+func stateHash(parked map[int32]*schedEvt) uint64 {
+	ids := make([]int32, 0, len(parked))
+	for id := range parked {
+		ids = append(ids, id)
+	}
+	sort.Slice(ids, func(i, j int) bool { return ids[i] < ids[j] })
+	h := uint64(1469598103934665603)
+	mix := func(v uint64) {
+		for i := 0; i < 8; i++ {
+			h ^= v >> (8 * uint(i)) & 0xFF
+			h *= 1099511628211
+		}
+	}
+	for i, id := range ids {
+		e := parked[id]
+		if i == 0 {
+			mix(uint64(uint32(atomic.LoadInt32(e.owner))))
+		}
+		mix(uint64(uint32(id)))
+		mix(uint64(e.point))
+		if e.point == pSPIN {
+			mix(uint64(uint32(e.obs)))
+		}
+	}
+	return h
 }
 
 // Monitor is the executable model of the hand-off protocol: it accepts or rejects a trace.
